@@ -87,6 +87,19 @@ CHECKS = {
              "instance of its own class are excluded (infinite under any semantics). Runaway detector: 600 frames / 6000 events.",
         technique="exhaustive enumeration of bounded call-graph programs executed on the real code, tree monitor (shortest program first)",
         design="3/C10"),
+    "C11": dict(
+        text="Fault enumeration on the real code: for each call (sync function, async function, constructor, sync method, async "
+             "method of a class with two invariants) and each choice of falsy condition (none / each one), the boundary crossings "
+             "of the fault-free run are recorded (every entry into a condition, truth test, capture, error factory, __repr__, body, "
+             "invariant, constructor; both halves of awaiting conditions) and the call is re-run once per crossing x fault kind "
+             "(Exception, BaseException subclass, KeyboardInterrupt, CancelledError inside; throw/cancel/close at every suspension "
+             "of the hand-driven coroutine); thorough adds all sequences of two faulted calls. After each, 21 probe calls in the "
+             "same context must reproduce their pristine-state traces and outcomes, and the surfaced exception must be or chain "
+             "the injected one.",
+        note="Trusted: CPython, the harness. Faults are injected at entries into user code and at suspension points, not between "
+             "arbitrary bytecodes (asynchronous signals are not modelled).",
+        technique="exhaustive fault-point enumeration (every boundary crossing x fault kind, sequences of <=2) with differential probe oracle",
+        design="3/C11"),
     "C16": dict(
         text="Exhaustive exploration of family F (all kinds, sync/async, plain/DBC chains of <=3 classes, own and inherited "
              "stacks of pre/post/snapshot/invariant, two decorator layouts, foreign functools.wraps decorators at top/middle/"
